@@ -90,7 +90,7 @@ class C17(Check):
         "PenlogReader, PenlogRecord, hr._main": "real",
     }
     shrink_lists = ["records"]
-    quick_runs = 1600
+    quick_runs = 1000
     thorough_runs = 100000
     chunk = 20
     smoke_runs = 5
@@ -162,6 +162,8 @@ class C17(Check):
                 world.start_pump(0.0002, None)
             elif plan["pump"] == "lag":
                 world.start_pump(plan["tick"], plan["batch"])
+            else:
+                world.pumps.rate = 0.0  # a consumer that got no CPU until it is joined
             by_prod: dict[int, list[dict[str, Any]]] = {}
             for r in plan["records"]:
                 by_prod.setdefault(r["producer"], []).append(r)
